@@ -15,6 +15,12 @@ pub mod panics;
 
 pub const VERIF_ROOT: &str = "/verif";
 
+/// Where the verification tree lives: `VERIF_ROOT` from the environment (set by
+/// `./check` to its own directory, so that a snapshot elsewhere works), else /verif.
+pub fn verif_root() -> PathBuf {
+    std::env::var_os("VERIF_ROOT").map(PathBuf::from).unwrap_or_else(|| PathBuf::from(VERIF_ROOT))
+}
+
 #[derive(Clone, Copy, Debug, PartialEq, Eq, Serialize, Deserialize)]
 #[serde(rename_all = "lowercase")]
 pub enum Tier {
@@ -363,7 +369,7 @@ pub struct ReplayFile {
 }
 
 pub fn replay_dir() -> PathBuf {
-    Path::new(VERIF_ROOT).join("replays")
+    verif_root().join("replays")
 }
 
 fn write_replay(ctx: &Ctx, group: &str, fail: &Fail, case: &Value) -> String {
@@ -578,7 +584,7 @@ pub fn one<C: Serialize>(ctx: &Ctx, rep: &mut Report, group: &str, case: &C, che
 }
 
 pub fn load_known() -> Vec<Known> {
-    let path = Path::new(VERIF_ROOT).join("KNOWN_FINDINGS.txt");
+    let path = verif_root().join("KNOWN_FINDINGS.txt");
     let Ok(text) = std::fs::read_to_string(path) else {
         return vec![];
     };
